@@ -115,6 +115,10 @@ fn second_case(s: &Spec, stored_auth: Option<Vec<u8>>, stored_session: Option<Ve
     if s.second == "after-expiry" {
         case.cfg.expiry = 0;
     }
+    if s.second == "at-expiry" {
+        // presented in the very second in which its age equals the expiry: "not older than the expiry" still holds
+        case.cfg.expiry = 2;
+    }
     if s.second == "same-huge-expiry" {
         // the largest configurable expiry: the cookie can never be too old
         case.cfg.expiry = u64::MAX;
@@ -245,7 +249,7 @@ fn judge(s: &Spec, c1: &Case, o1: &Obs, o2: &Obs, o1b: &Obs, bracket: (u64, u64)
     let auth_calls = o2.calls.iter().filter(|c| c.kind() == "authenticate").count();
     let success = o2.packets.iter().find_map(|(_, p)| if let Pkt::LoginSuccess { uuid, name, .. } = p { Some((name.clone(), *uuid)) } else { None });
     let presented = sec.is_some() && auth1.len() == 1 && s.second != "login-intent";
-    let accept = presented && matches!(s.second.as_str(), "same" | "other-port" | "same-huge-expiry");
+    let accept = presented && matches!(s.second.as_str(), "same" | "other-port" | "same-huge-expiry" | "at-expiry");
     if accept {
         if flag != Some(false) || auth_calls != 0 || success != Some((name.clone(), uuid)) {
             let fam = if c1.cfg.client_addr.is_ipv4() { "ipv4" } else if s.addr == "v4-mapped" { "ipv4-mapped" } else { "ipv6" };
@@ -337,6 +341,10 @@ fn specs(thorough: bool) -> Vec<Spec> {
         }
     }
     // one history per address family whose second connection comes after the cookie expired (costs real time)
+    // presented in the second in which its age equals the expiry (2 s, real time)
+    for a in addrs {
+        v.push(Spec { ident: "ascii".into(), props: 1, target: "t".into(), addr: a.into(), secret: "64".into(), session: false, host: "name".into(), second: "at-expiry".into(), stall_ms: 0, second_without_session: false });
+    }
     // the second connection comes without a session cookie
     for snd in seconds {
         for sc in ["none", "64"] {
@@ -367,11 +375,24 @@ fn run_history(s: &Spec) -> (Case, Obs, Obs, Obs, (u64, u64), (u64, u64)) {
         // expiry 0: the cookie is too old as soon as the wall clock has moved on by a second
         std::thread::sleep(std::time::Duration::from_millis(2100));
     }
+    if s.second == "at-expiry" {
+        // wait for the wall-clock second in which the cookie is exactly two seconds old (the verdict only counts
+        // if that second has not passed when the second connection is over: see the retry in run_history)
+        if let Some(ts) = auth1.first().and_then(|c| serde_json::from_slice::<Value>(&c[32.min(c.len())..]).ok()).and_then(|v| v["timestamp"].as_u64()) {
+            while wall_secs() < ts + 2 {
+                std::thread::sleep(std::time::Duration::from_millis(5));
+            }
+        }
+    }
     let stored_session = if s.second_without_session { None } else if s.session { Some(SESSION_JSON.to_vec()) } else { sess1.first().cloned() };
     let c2 = second_case(s, auth1.first().cloned(), stored_session);
     let t2 = wall_secs();
     let o2 = crate::sim::run(&c2);
     let t3 = wall_secs();
+    if s.second == "at-expiry" && t3 != t2 {
+        // the second ticked while the second connection ran: the cookie's age is not known to be exactly the expiry
+        return run_history(s);
+    }
     (c1, o1, o2, o1b, (t0, t1), (t2, t3))
 }
 
@@ -426,7 +447,7 @@ pub fn run(cli: Cli) -> ! {
     rep.set("second_admitted_by_cookie", json!(accepted.load(Ordering::Relaxed)));
     rep.set("second_reauthenticated", json!(reauth.load(Ordering::Relaxed)));
     rep.set("exhaustive", json!(true));
-    rep.set("rule", json!("two-connection histories (the first one run twice for the freshness of the session id): client address family(3) x secret(6) x prior session cookie(2) x second connection(same, other port, other IP, Login intent, same under the largest configurable expiry) complete; identity(4) x properties(3) x target identifier(4) x handshake host/port(3) complete in thorough, rotated in quick; plus three histories whose second connection comes after the expiry (real time) and 20 whose second connection presents no session cookie (it is routed too and must be given one). distinct_nontrivial = distinct (first trace, second trace, calls)."));
+    rep.set("rule", json!("two-connection histories (the first one run twice for the freshness of the session id): client address family(3) x secret(6) x prior session cookie(2) x second connection(same, other port, other IP, Login intent, same under the largest configurable expiry) complete; identity(4) x properties(3) x target identifier(4) x handshake host/port(3) complete in thorough, rotated in quick; plus three histories whose second connection comes after the expiry and three in the very second in which the cookie's age equals the expiry (real time) and 20 whose second connection presents no session cookie (it is routed too and must be given one). distinct_nontrivial = distinct (first trace, second trace, calls)."));
     rep.sample(json!({"spec": all[0]}));
     rep.sample(json!({"spec": all[all.len() - 1], "note": "second connection after expiry (2.1 s of real time, expiry 0)"}));
     rep.assume("on the cookie-authenticated path the presence of a refreshed cookie is not judged (if one is issued it must verify and carry the cookie's identity)");
